@@ -1,7 +1,7 @@
 (* Model of the queue admission webhook
      pkg/webhooks/admission/queues/validate/validate_queue.go   (AdmitQueues and everything it calls)
      pkg/webhooks/router/indexer.go                             (GetQueuesByParent)
-   as the code is AFTER the three fix commits 16eeba9, 02b9100, e160f0e (docs/notes/C10.md);
+   as the code is AFTER the four fix commits 16eeba9, 02b9100, e160f0e, aa1c1ec (docs/notes/C10.md);
    line numbers are those of the file after them.
 
    State = the queue set the lister shows (name -> spec).  Names are positives
@@ -28,6 +28,7 @@ Record qspec := mkQ {
   qparent : option positive;   (* Spec.Parent, None = "" *)
   qalloc : Z;                  (* Status.Allocated[pods] (0 = absent or zero) *)
   qstate : Z;                  (* Status.State: 0 "", 1 Open, 2 Closed, 3 Closing, 4 Unknown *)
+  qterm : bool;                (* metadata.deletionTimestamp is set: the queue is terminating *)
   qcap : rlist;                (* Spec.Capability *)
   qdes : rlist;                (* Spec.Deserved *)
   qguar : rlist                (* Spec.Guarantee.Resource *)
@@ -56,7 +57,7 @@ Inductive verdict :=
 | VAllowed | VSpec | VSelfParent | VDepth | VAncMissing | VParentGet | VParentBusy | VRootProt
 | VParentGone | VCapAncestor | VSiblingSum | VCapChildren | VChildrenSum
 | VDelProtected | VDelMissing | VDelAllocated | VDelChildren
-| VCycle | VSubtreeDepth | VRootParent
+| VCycle | VSubtreeDepth | VRootParent | VParentTerminating
 | VNotInvoked      (* UPDATE / status update of a queue that does not exist: 404 before admission *)
 | VFuel.           (* fuel of a modelled recursion exhausted: the Go code would not return *)
 
@@ -94,7 +95,7 @@ Definition new_resource (m : rlist) : res :=
   let s : rlist := filter (fun kv => scalar_dim (fst kv) = true) m in
   mkRes (amount m cpu_d) (amount m mem_d) (if bool_decide (s = ∅) then None else Some s).
 
-(* getSingleResource (429-441) *)
+(* getSingleResource (435-447) *)
 Definition rget (r : res) (d : positive) : Z :=
   if bool_decide (d = cpu_d) then cpu r else if bool_decide (d = mem_d) then mem r else sget r d.
 
@@ -113,7 +114,7 @@ Definition children_of (Q : queues) (p : positive) : list (positive * qspec) :=
 Definition is_top (p : option positive) : bool :=
   match p with None => true | Some x => bool_decide (x = root) end.
 
-(* ---------- validateQueueDepth 505-533, queueSubtreeHeight 535-551 (after the fix) ---------- *)
+(* ---------- validateQueueDepth 511-539, queueSubtreeHeight 541-557 (after the fix) ---------- *)
 
 (* [rem] = MaxQueueDepth - depth, the iterations the loop may still take: the
    Go loop increments depth and fails when it exceeds the maximum, so it is
@@ -140,8 +141,8 @@ Fixpoint sub_height (limit : nat) (Q : queues) (n : positive) : nat :=
   | S l => foldr (fun c acc => Nat.max (S (sub_height l Q (fst c))) acc) O (children_of Q n)
   end.
 
-(* validateHierarchicalQueue (373-413) *)
-Definition validate_hier (c : cfg) (Q : queues) (n : positive) (s : qspec) : verdict :=
+(* validateHierarchicalQueue (373-419) *)
+Definition validate_hier_with (term_check : bool) (c : cfg) (Q : queues) (n : positive) (s : qspec) : verdict :=
   match qparent s with
   | None => VAllowed
   | Some p =>
@@ -155,13 +156,19 @@ Definition validate_hier (c : cfg) (Q : queues) (n : positive) (s : qspec) : ver
            else match Q !! p with
                 | None => VParentGet
                 | Some ps =>
-                  if bool_decide (children_of Q p = []) && negb (bool_decide (qalloc ps = 0))
+                  (* a terminating queue takes no new children (third fix) *)
+                  if term_check && qterm ps then VParentTerminating
+                  else if bool_decide (children_of Q p = []) && negb (bool_decide (qalloc ps = 0))
                   then VParentBusy else VAllowed
                 end
          end
   end.
 
-(* ---------- hierarchical resources (444-488, 559-740) ---------- *)
+Definition validate_hier := validate_hier_with true.
+(* as it was before the fix "a terminating queue takes no new children" (kept for the record) *)
+Definition validate_hier_preterm := validate_hier_with false.
+
+(* ---------- hierarchical resources (450-494, 565-746) ---------- *)
 
 (* findNearestAncestorCapability: None = fuel exhausted, Some None = (0,false) *)
 Fixpoint nearest_cap (fuel : nat) (Q : queues) (parent : option positive) (d : positive) : option (option Z) :=
@@ -208,7 +215,7 @@ Definition sum_check (lim : res) (items : list res) : bool := sum_check_from lim
 Fixpoint first_bad (l : list verdict) : verdict :=
   match l with [] => VAllowed | v :: r => if allowed v then first_bad r else v end.
 
-(* validateChildAgainstAncestor (602-628), first loop: the queue's own capability *)
+(* validateChildAgainstAncestor (608-634), first loop: the queue's own capability *)
 Definition child_vs_ancestor_own (Q : queues) (s : qspec) : verdict :=
   let r := new_resource (qcap s) in
   first_bad (map (fun d =>
@@ -218,7 +225,7 @@ Definition child_vs_ancestor_own (Q : queues) (s : qspec) : verdict :=
       | Some (Some up) => if bool_decide (up < rget r d) then VCapAncestor else VAllowed
       end) (res_names r)).
 
-(* collectDescendantCapabilityNames (631-645): None = fuel exhausted *)
+(* collectDescendantCapabilityNames (637-651): None = fuel exhausted *)
 Fixpoint desc_names (fuel : nat) (Q : queues) (n : positive) : option (list positive) :=
   match fuel with
   | O => None
@@ -250,14 +257,14 @@ Definition child_vs_ancestor (Q : queues) (n : positive) (s : qspec) : verdict :
   | v => v
   end.
 
-(* validateSiblingsSum (648-686); the guarantee and deserved errors are one class *)
+(* validateSiblingsSum (654-692); the guarantee and deserved errors are one class *)
 Definition siblings_sum (Q : queues) (n : positive) (s ps : qspec) (p : positive) : verdict :=
   let sibs := map snd (filter (fun c => fst c <> n) (children_of Q p)) ++ [s] in
   if sum_check (new_resource (qguar ps)) (map (fun x => new_resource (qguar x)) sibs) &&
      sum_check (new_resource (qdes ps)) (map (fun x => new_resource (qdes x)) sibs)
   then VAllowed else VSiblingSum.
 
-(* validateChildrenConstraints (689-740) *)
+(* validateChildrenConstraints (695-746) *)
 Definition children_constraints (Q : queues) (s : qspec) (kids : list (positive * qspec)) : verdict :=
   let r := new_resource (qcap s) in
   match first_bad (map (fun d =>
@@ -272,7 +279,7 @@ Definition children_constraints (Q : queues) (s : qspec) (kids : list (positive 
   | v => v
   end.
 
-(* validateHierarchicalQueueResources (559-599) *)
+(* validateHierarchicalQueueResources (565-605) *)
 Definition validate_resources_with (cva : verdict) (Q : queues) (n : positive) (s : qspec) : verdict :=
   let v1 :=
     match qparent s with
@@ -336,7 +343,8 @@ Definition admit_delete (c : cfg) (Q : queues) (n : positive) : verdict :=
          else VAllowed
        end.
 
-Definition with_status (a st : Z) (s : qspec) : qspec := mkQ (qparent s) a st (qcap s) (qdes s) (qguar s).
+Definition with_status (a st : Z) (t : bool) (s : qspec) : qspec :=
+  mkQ (qparent s) a st t (qcap s) (qdes s) (qguar s).
 
 (* what the implementation answers to a request *)
 Definition verdict_of (c : cfg) (Q : queues) (r : req) : verdict :=
@@ -352,36 +360,29 @@ Definition verdict_of (c : cfg) (Q : queues) (r : req) : verdict :=
    create of an existing name and update/delete of a missing one change nothing) *)
 Definition apply_req (Q : queues) (r : req) : queues :=
   match r with
-  | Create n s => match Q !! n with None => <[n := with_status 0 0 s]> Q | Some _ => Q end
-  | Update n s => match Q !! n with None => Q | Some o => <[n := with_status (qalloc o) (qstate o) s]> Q end
+  | Create n s => match Q !! n with None => <[n := with_status 0 0 false s]> Q | Some _ => Q end
+  | Update n s => match Q !! n with None => Q | Some o => <[n := with_status (qalloc o) (qstate o) (qterm o) s]> Q end
   | Delete n => delete n Q
-  | DeleteFin n => Q
-  | EnvGone n =>   (* the API server drops the object unconditionally, children or not *)
-    if negb (bool_decide (n = root)) && negb (bool_decide (n = default_q)) then delete n Q else Q
+  | DeleteFin n =>   (* the object stays, terminating *)
+    match Q !! n with None => Q | Some o => <[n := with_status (qalloc o) (qstate o) true o]> Q end
+  | EnvGone n =>   (* the API server drops a terminating object once its finalizers are gone, children or not *)
+    match Q !! n with
+    | Some o => if qterm o && negb (bool_decide (n = root)) && negb (bool_decide (n = default_q))
+                then delete n Q else Q
+    | None => Q
+    end
   | EnvStatus n a st =>
     match Q !! n with
     | None => Q
-    | Some o => <[n := with_status (if a <? 0 then qalloc o else a) (if st <? 0 then qstate o else st) o]> Q
+    | Some o => <[n := with_status (if a <? 0 then qalloc o else a) (if st <? 0 then qstate o else st) (qterm o) o]> Q
     end
   end.
 
 Definition apply_if_admitted (c : cfg) (Q : queues) (r : req) : queues :=
   if allowed (verdict_of c Q r) then apply_req Q r else Q.
 
-(* a finalizer removal is SAFE when the queue has no children.  The webhook admits a CREATE / re-parenting
-   under a terminating queue, so an unsafe removal is reachable (known finding
-   C10-child-under-terminating-parent); the history theorems carry this as a hypothesis. *)
-Definition req_safe (Q : queues) (r : req) : Prop :=
-  match r with EnvGone n => children_of Q n = [] | _ => True end.
-
 Definition run_history (c : cfg) (Q0 : queues) (rs : list req) : queues :=
   fold_left (apply_if_admitted c) rs Q0.
-
-Fixpoint safe_history (c : cfg) (Q : queues) (rs : list req) : Prop :=
-  match rs with
-  | [] => True
-  | r :: rest => req_safe Q r /\ safe_history c (apply_if_admitted c Q r) rest
-  end.
 
 (* the verdicts along a history *)
 Fixpoint verdicts (c : cfg) (Q : queues) (rs : list req) : list verdict :=
